@@ -161,7 +161,7 @@ pub(crate) fn l1_helping_get_debt() {
 //           installed envelope) and space_offer' = that envelope.
 // frame:    active_addr untouched, envelope contents untouched.
 // trace:    slot.swap (SeqCst) precedes control.swap.
-// @harness name=l1_helping_confirm props=C01,C02,C13 tier=quick flavour=nostd fn=helping::Slots::confirm
+// @harness name=l1_helping_confirm props=C01,C02,C13,C08 tier=quick flavour=nostd fn=helping::Slots::confirm
 #[cfg_attr(kani, kani::proof)]
 #[cfg_attr(kani, kani::unwind(12))]
 pub(crate) fn l1_helping_confirm() {
@@ -235,7 +235,7 @@ fn replacement() -> TP {
 //        written into *my current* envelope before the CAS; who.control' = my envelope|REPLACEMENT_TAG;
 //        my space_offer' = their space_offer; the reference travels with the envelope (net +1);
 // frame:    who.slot, who.active_addr, who.space_offer never written by the helper.
-// @harness name=l1_helping_help props=C01,C02,C12,C03 tier=quick flavour=nostd fn=helping::Slots::help
+// @harness name=l1_helping_help props=C01,C02,C12,C03,C08 tier=quick flavour=nostd fn=helping::Slots::help
 #[cfg_attr(kani, kani::proof)]
 #[cfg_attr(kani, kani::unwind(12))]
 pub(crate) fn l1_helping_help() {
